@@ -16,7 +16,7 @@ RULE = (
     "Maxwell-Betti symmetry of the flexibility matrix assembled from the unit-load columns, superposition, rigid rotation of the tube model; "
     "non-trivial = distinct configurations with non-zero response"
 )
-ASSUMPTIONS = ["finite alphabets for layouts (incl. 60 deg sweep, winglet, full-span structures centred and off the plane y = 0, model scale 1e-3, two materials) and section properties; ny<=7 in the complete product, ny<=41 (81 thorough) on two layouts", "reference frame oasmc/ref/ref_beam.py (self-tested on closed-form cantilevers)", "loads of 1e3 N >> 1e-6 N zeroing threshold", "OpenMDAO/NumPy/SciPy trusted"]
+ASSUMPTIONS = ["finite alphabets for layouts (incl. half-span beams stored in either spanwise node order, 60 deg sweep, winglet, full-span structures centred and off the plane y = 0, model scale 1e-3, two materials) and section properties; ny<=7 in the complete product, ny<=41 (81 thorough) on two layouts", "reference frame oasmc/ref/ref_beam.py (self-tested on closed-form cantilevers)", "loads of 1e3 N >> 1e-6 N zeroing threshold", "OpenMDAO/NumPy/SciPy trusted"]
 BOUND = {"quick": "ny in {2,3,4} half / {3,5} full exhaustively; production-size beams ny 21 (left), 16 (right), 41 (full) on two layouts x two models", "thorough": "ny up to 7 exhaustively; production-size beams up to ny 50 / 33 / 81"}
 TOL = 1e-9
 E_, G_ = 70.0e9, 30.0e9
@@ -34,13 +34,15 @@ def states(tier, seed):
     big = [("left", 21), ("full", 41), ("right", 16)] + ([("left", 50), ("full", 81), ("right", 33)] if tier == "thorough" else [])
     for lay, (side, ny), model in itertools.product(["sweptdi", "winglet"], big, ["tube", "wingbox"]):
         st.append(dict(part="frame", layout=lay, side=side, ny=ny, sec="varying", model=model, fam=fam))
+    for lay, (side, ny), model in itertools.product(["sweptdi", "kinked"], [("leftrev", 3), ("leftrev", 4), ("rightrev", 3), ("rightrev", 2)], ["tube", "wingbox"]):
+        st.append(dict(part="frame", layout=lay, side=side, ny=ny, sec="varying", model=model, fam=fam))
     for (side, ny), sec in itertools.product([("left", 2), ("left", 4), ("full", 5), ("full", 3)], ["uniform", "tube"]):
         st.append(dict(part="cantilever", side=side, ny=ny, sec=sec, fam=fam))
     for lay, (side, ny), rot in itertools.product(["swept", "sweptdi", "kinked"], [("left", 3), ("full", 5)] + ([("left", 4), ("full", 7)] if tier == "thorough" else []), ["z20", "z45", "x30", "y10"]):
         st.append(dict(part="rotate", layout=lay, side=side, ny=ny, rot=rot, fam=fam))
     # two beam models of different handedness / span type but equal node count solved one after the other in the SAME
     # process, both orders: each must still agree with the reference frame (no state shared between instances)
-    for (a, b), ny, model in itertools.product(itertools.permutations(["left", "right", "full"], 2), [3, 5], ["tube", "wingbox"]):
+    for (a, b), ny, model in itertools.product(itertools.permutations(["left", "right", "full", "leftrev", "rightrev"], 2), [3, 5], ["tube", "wingbox"]):
         st.append(dict(part="sequence", sides=[a, b], ny=ny, model=model, layout="sweptdi", sec="varying", fam=fam))
     for (side, ny), sec, model in itertools.product([("left", 3), ("full", 5), ("right", 3)], ["varying", "tube"], ["tube", "wingbox"]):
         st.append(dict(part="frame", layout="sweptdi", side=side, ny=ny, sec=sec, model=model, gscale=1.0e-3, fam=fam))
@@ -57,7 +59,10 @@ def states(tier, seed):
 def nodes_of(s):
     """beam axis: built from a two-row mesh; returns the mesh (SpatialBeamSetup derives nodes from it)"""
     pf = {"straight": "rect", "swept": "swept", "sweptdi": "twdi", "kinked": "swept", "swept60": "rect", "winglet": "swept"}[s["layout"]]
-    m = gen.make_mesh(pf, 2, s["ny"], s["side"], s["fam"], asym=(s["side"] == "full" and s["layout"] != "straight"), span=10.0, chord=1.2)
+    m = gen.make_mesh(pf, 2, s["ny"], s["side"].replace("rev", ""), s["fam"], asym=(s["side"] == "full" and s["layout"] != "straight"), span=10.0, chord=1.2)
+    if s["side"].endswith("rev"):
+        # the same half-span beam with its spanwise node order reversed (where the root is follows from the coordinates, not from the side)
+        m = m[:, ::-1].copy()
     if s["layout"] == "swept60":
         # elements that run more chordwise than spanwise (sweep beyond 45 degrees), with a little dihedral
         m[:, :, 0] += 1.7 * np.abs(m[:, :, 1])
@@ -124,7 +129,8 @@ def beam_problem(mesh, sym, model, A, Iy, Iz, J, mat="alu"):
 
 
 def root_index(side, ny):
-    return {"left": ny - 1, "right": 0, "full": (ny - 1) // 2}[side]
+    # "leftrev": the left half (y <= 0) stored root first; "rightrev": the right half (y >= 0) stored tip first
+    return {"left": ny - 1, "right": 0, "full": (ny - 1) // 2, "leftrev": 0, "rightrev": ny - 1}[side]
 
 
 def run_state(s):
